@@ -208,12 +208,18 @@ def real_swap(case, mode, expect):
     if not want["unique"]:
         return {"match": True, "violates": False, "reason": None, "observed": "tie"}
     try:
-        a = RC.result_to_dict(RC.build_evaluator(cfg).evaluate(pred.copy(), ref.copy(), verbose=False)["ungrouped"][0], METRICS)
-        b = RC.result_to_dict(RC.build_evaluator(cfg).evaluate(ref.copy(), pred.copy(), verbose=False)["ungrouped"][0], METRICS)
+        # forward, then exchanged, on the SAME array objects (as a caller comparing both directions would do)
+        p1, r1 = pred.copy(), ref.copy()
+        a = RC.result_to_dict(RC.build_evaluator(cfg).evaluate(p1, r1, verbose=False)["ungrouped"][0], METRICS)
+        mutated = not (np.array_equal(p1, pred) and np.array_equal(r1, ref))
+        b = RC.result_to_dict(RC.build_evaluator(cfg).evaluate(r1, p1, verbose=False)["ungrouped"][0], METRICS)
     except Exception as e:
         return {"match": False, "violates": True, "reason": "evaluation_completes: %s: %s" % (type(e).__name__, str(e)[:120]), "observed": None}
     bad = None
-    if a["tp"] != b["tp"]:
+    if mutated:
+        bad = "no_input_mutation: the forward evaluate modified the caller's arrays (prediction %s -> %s, reference %s -> %s); the exchanged call on the same arrays then gives tp/fp/fn %s vs forward %s" % (
+            pred.tolist(), p1.tolist(), ref.tolist(), r1.tolist(), (b["tp"], b["fp"], b["fn"]), (a["tp"], a["fp"], a["fn"]))
+    elif a["tp"] != b["tp"]:
         bad = "tp_equal: %d vs %d" % (a["tp"], b["tp"])
     elif (a["fp"], a["fn"]) != (b["fn"], b["fp"]):
         bad = "fp_fn_exchanged: forward fp/fn %d/%d, exchanged %d/%d" % (a["fp"], a["fn"], b["fp"], b["fn"])
